@@ -30,7 +30,9 @@ def run(chk):
         meta = {"xs": xs, "k": k, "compression": comp}
         if "symdel" in engines:
             mop = {"op": "symdel_self", "xs": xs, "k": k, "mode": "ham"} if model and len(xs) <= 45 else None
-            b.add("symdel-ham|" + label, lambda: nn.symdel(xs, max_edits=k, custom_distance="hamming"), mop, sop, meta)
+            b.add("symdel-ham|" + label, lambda: nn.symdel(xs, max_edits=k, custom_distance="hamming"), mop, sop, meta,
+                  factory=lambda c: (lambda: nn.symdel(c, max_edits=k, custom_distance="hamming"),
+                                     {"op": "brute_self", "xs": c, "k": k, "mode": "ham"}))
             b.add("nearest_neighbor-ham|" + label, lambda: nn.nearest_neighbor(xs, max_edits=k, custom_distance="hamming"),
                   None, sop, meta)
         if "hash_based" in engines and k <= 2:
@@ -40,7 +42,9 @@ def run(chk):
         if "kdtree" in engines:
             mop = {"op": "kdtree", "xs": xs, "k": k, "c": comp, "A": AA, "mode": "ham"} if model else None
             b.add("kdtree-ham|" + label, lambda: nn.kdtree(xs, max_edits=k, custom_distance="hamming", compression=comp),
-                  mop, sop, meta)
+                  mop, sop, meta,
+                  factory=lambda c: (lambda: nn.kdtree(c, max_edits=k, custom_distance="hamming", compression=comp),
+                                     {"op": "brute_self", "xs": c, "k": k, "mode": "ham"}))
 
     def add_two(label, ref, qs, k):
         sop = {"op": "brute_cross", "ref": ref, "qs": qs, "k": k, "mode": "ham"}
